@@ -3,7 +3,7 @@ CONSTANTS
   NMax = 3
   L0 = 12
   Spacings = {2,4}
-  BStep = 1
+  BStep = 2
   RKinds = {"flat","lee","deck"}
   Routes = {"prepare","model","contrib","each","full"}
   Store = "component"
